@@ -48,6 +48,7 @@ const (
 	tIssueCommit        // issuance commitment (ProofU) with the shared secret
 	tRandStress         // tight loop of 2000 one-block reads from the process-wide generator (free-running class)
 	tGenKey             // gabikeys.GenerateKeyPair at a toy length (free-running class: parallel key generation under the race detector)
+	tIssueRetry         // one CredentialBuilder answering twice (issuer nonce changed after a dropped session; or a proof list first): same U, fresh randomness
 	tOpKinds
 )
 
@@ -125,6 +126,8 @@ type tProof struct {
 	Ctx, Nonce      *big.Int
 	IsList          bool
 	IsIssuance      bool
+	Seq             int    // n-th proof list produced by this op (an op may answer more than once)
+	SameBuilder     string // non-empty: proofs with the same value come from one CredentialBuilder (same U by construction)
 }
 
 type tRead struct {
@@ -169,7 +172,9 @@ func runT(r *kernel.Run, s TSpec) *tResult {
 	}
 	secret := newSecret()
 	for i := 0; i < s.NCreds; i++ {
-		hc := w.NewCred(key, secret, []int{2, 8, 2}, true)
+		// the third attribute is oversized (hashed before use) in two credentials out of three: provers and
+		// verifiers then go through the hashing path concurrently
+		hc := w.NewCred(key, secret, []int{2, 8, []int{2, 6, 5}[w.hr.IntN(3)]}, true)
 		if s.Primed[i] {
 			if err := hc.Cred.NonrevPrepareCache(); err != nil {
 				panic(err)
@@ -179,7 +184,7 @@ func runT(r *kernel.Run, s TSpec) *tResult {
 	}
 	// a pre-made proof for verifier tasks
 	premade := func() []byte {
-		pd, err := res.Creds[0].Cred.CreateDisclosureProof([]int{1}, nil, false, big.NewInt(77), big.NewInt(78))
+		pd, err := res.Creds[0].Cred.CreateDisclosureProof([]int{1, 3}, nil, false, big.NewInt(77), big.NewInt(78))
 		if err != nil {
 			panic(err)
 		}
@@ -232,7 +237,13 @@ func runT(r *kernel.Run, s TSpec) *tResult {
 							sl.errs = append(sl.errs, fmt.Sprintf("p%d t%d o%d kind %d: encode: %v", p, ti, oi, kind, merr))
 							return
 						}
-						sl.proofs = append(sl.proofs, tProof{Phase: p, Task: ti, Op: oi, Cred: op.Cred % len(res.Creds), Cred2: c2, Kind: kind, Wire: b, Ctx: ctx, Nonce: nonce, IsList: isList, IsIssuance: isIss})
+						seq := 0
+					for _, q := range sl.proofs {
+						if q.Phase == p && q.Task == ti && q.Op == oi {
+							seq++
+						}
+					}
+					sl.proofs = append(sl.proofs, tProof{Phase: p, Task: ti, Op: oi, Seq: seq, Cred: op.Cred % len(res.Creds), Cred2: c2, Kind: kind, Wire: b, Ctx: ctx, Nonce: nonce, IsList: isList, IsIssuance: isIss})
 					}
 					switch op.Kind {
 					case tPrepare:
@@ -264,6 +275,38 @@ func runT(r *kernel.Run, s TSpec) *tResult {
 						}
 						pl, err := gabi.ProofBuilderList{cb}.BuildProofList(ctx, nonce, false)
 						rec(pl, err, op.Kind, -1, false, true)
+					case tIssueRetry:
+						cb, err := gabi.NewCredentialBuilder(pk, ctx, secret, big.NewInt(4242), nil, nil)
+						if err != nil {
+							sl.errs = append(sl.errs, err.Error())
+							continue
+						}
+						tag := fmt.Sprintf("p%dt%do%d", p, ti, oi)
+						mark := func() {
+							if n := len(sl.proofs); n > 0 && sl.proofs[n-1].Op == oi && sl.proofs[n-1].Task == ti && sl.proofs[n-1].Phase == p {
+								sl.proofs[n-1].SameBuilder = tag
+							}
+						}
+						if op.N%2 == 0 {
+							m1, err := cb.CommitToSecretAndProve(nonce)
+							if err == nil {
+								rec(m1.Proofs, nil, op.Kind, -1, false, true)
+								mark()
+							}
+						} else {
+							pl, err := gabi.ProofBuilderList{cb}.BuildProofList(ctx, nonce, false)
+							rec(pl, err, op.Kind, -1, false, true)
+							mark()
+						}
+						nonceB := new(big.Int).Add(nonce, big.NewInt(1))
+						m2, err := cb.CommitToSecretAndProve(nonceB)
+						if err != nil {
+							sl.errs = append(sl.errs, err.Error())
+							continue
+						}
+						nonce = nonceB
+						rec(m2.Proofs, nil, op.Kind, -1, false, true)
+						mark()
 					case tVerify:
 						var pl gabi.ProofList
 						if err := json.Unmarshal(premade, &pl); err != nil {
